@@ -2338,11 +2338,16 @@ class VM:
             # Valid indices are integer strings in range [0, 2^32-2]
             try:
                 idx = int(key_str)
-                if idx >= 0 and str(idx) == key_str:
-                    obj.set_index(idx, value)
-                    return
-            except (ValueError, IndexError):
-                pass
+            except ValueError:
+                idx = -1
+            if idx >= 0 and str(idx) == key_str:
+                if idx > len(obj._elements):
+                    # Stricter mode: no holes, only appending at the end extends an array
+                    raise JSTypeError(
+                        f"Array index {key_str} out of bounds (length {len(obj._elements)})"
+                    )
+                obj.set_index(idx, value)
+                return
             # If key looks like a number but isn't a valid integer index, throw
             # This includes NaN, Infinity, -Infinity, floats like "1.2"
             invalid_keys = ("NaN", "Infinity", "-Infinity")
